@@ -313,13 +313,13 @@ def run_shard(ctx):
     def test(case):
         check_case(ctx, case)
 
-    runner.drive(ctx, test, ctx.n(2400, 60000))
+    runner.drive(ctx, test, ctx.n(12000, 120000))
 
     @given(tz_cases())
     def test_tz(case):
         check_tz_case(ctx, case)
 
-    runner.drive(ctx, test_tz, ctx.n(600, 8000))
+    runner.drive(ctx, test_tz, ctx.n(2400, 16000))
 
 
 def replay(ctx, case):
